@@ -8,6 +8,7 @@ HERE = os.path.dirname(os.path.dirname(os.path.abspath(__file__)))
 
 # id -> (design section, level text, level note, technique)
 CLAIMED = {}
+ADDENDA = {}
 
 
 def claim(pid, text, note, technique):
@@ -27,6 +28,7 @@ def main():
     for pid in ids:
         if pid in CLAIMED:
             text, note, technique = CLAIMED[pid]
+            text = text + (" " + ADDENDA[pid] if pid in ADDENDA else "")
             checks.append({
                 "property_id": pid,
                 "quick_cmd": f"/venv/bin/python /verif/check.py {pid} --tier quick",
